@@ -522,6 +522,19 @@ def edge_facts(B, cx, site_bb, _depth=0):
                                     if a.startswith("len("):
                                         cx.nonneg.add(a)
                                 facts.append((l2, rel))
+                # `match xs.first() { None => .., Some(x) => .. }` (also through .cloned() / .copied()): the slice is empty / is not
+                fo = strip_refs(sym[1])
+                while fo[0] == "call" and fo[1] and re.search(r"Option::<(&|&mut )?T>::(cloned|copied|as_ref|as_deref)$|Option::<T>::(as_ref|as_deref)$", fo[1]) and len(fo[2]) == 1:
+                    fo = strip_refs(fo[2][0])
+                if fo[0] == "call" and fo[1] and re.search(r"core::slice::<impl \[T\]>::(first|last|split_first|split_last)$", fo[1]) and len(fo[2]) == 1:
+                    a_ = len_atom(fo[2][0])
+                    cx.nonneg.add(a_)
+                    is_none = (len(vals) == 1 and vals[0] == 0 and not is_other) or (is_other and 1 in t["vals"])
+                    is_some = (len(vals) == 1 and vals[0] == 1 and not is_other) or (is_other and 0 in t["vals"])
+                    if is_none:
+                        facts.append((Lin({a_: 1}), "=="))
+                    elif is_some:
+                        facts.append((Lin({a_: 1}, -1), ">="))
                 if is_other:
                     variants.append((M.show(strip_refs(sym[1])), "not", tuple(t["vals"])))
                 elif len(vals) == 1:
